@@ -17,7 +17,8 @@ Definition loop_result (n : nid) (k j : nat) (last : val + err) (evs : list even
   let ex := filter (is_exec_of n) evs in
   match ar with
   | AAbort _ => False
-  | ARes (inl x) => 1 <= length ex <= k /\ first_ok ex j = j + length ex - 1
+  | ARes (inl x) => (k = 0 /\ ex = [] /\ last = inl x) \/
+                   (1 <= length ex <= k /\ first_ok ex j = j + length ex - 1)
   | ARes (inr e) => (k = 0 /\ ex = [] /\ last = inr e) \/ (0 < k /\ length ex = k /\ first_ok ex j = 0)
   end.
 
@@ -43,7 +44,8 @@ Lemma attempts_count c n w (Hex : has_exec c = true) :
                 (cancelled s = false -> existsb ev_cancel evs = false -> loop_result n k j last evs ar).
 Proof.
   induction k as [|k IH]; intros i s p last s' ar j H; cbn [attempts] in H.
-  - inv H. exists []. rewrite app_nil_r. repeat split; auto. intros _ _. cbn. left. auto.
+  - inv H. exists []. rewrite app_nil_r. repeat split; auto. intros _ _. cbn.
+    destruct last; left; auto.
   - destruct (cancelled s) eqn:Hc.
     { inv H. exists []. rewrite app_nil_r. repeat split; auto. intros Hf. discriminate. }
     (* the optional wait *)
@@ -62,7 +64,7 @@ Proof.
       destruct r as [x|e].
       - inv HB. exists (pre ++ [ev]). split; [rewrite L2, L1, <- app_assoc; reflexivity|].
         split; [rewrite filter_snoc, Ff, Hf; reflexivity|].
-        intros _. unfold loop_result. rewrite filter_snoc, Fe, Hx. cbn. rewrite Hok. split; lia.
+        intros _. unfold loop_result. rewrite filter_snoc, Fe, Hx. cbn. rewrite Hok. right. split; lia.
       - destruct (IH _ _ _ _ _ _ (S j) HB) as [evs [L3 [F3 R3]]].
         exists (pre ++ ev :: evs). split; [rewrite L3, L2, L1, <- !app_assoc; reflexivity|].
         split; [rewrite filter_app, Ff; cbn; rewrite Hf; exact F3|].
@@ -72,7 +74,8 @@ Proof.
         specialize (R3 C2 Hq3).
         unfold loop_result in *. rewrite filter_app, Fe. cbn [app filter]. rewrite Hx.
         destruct ar as [ea|[x|e2]]; auto.
-        + destruct R3 as [[Hl1 Hl2] Hfo]. cbn [length]. rewrite (first_ok_fail _ _ _ Hok). split; lia.
+        + destruct R3 as [[_ [_ Hl]]|[[Hl1 Hl2] Hfo]]; [discriminate|].
+          right. cbn [length]. rewrite (first_ok_fail _ _ _ Hok). split; lia.
         + right. cbn [length]. rewrite (first_ok_fail _ _ _ Hok).
           destruct R3 as [[-> [-> _]]|[Hk [Hl Hfo]]]; cbn; repeat split; auto; lia. }
     destruct (Nat.ltb 0 i && Nat.ltb 0 w).
@@ -80,7 +83,7 @@ Proof.
       apply emit_spec in Ew. destruct Ew as [cnw [_ [Lw Cw]]]. rewrite Hc in Cw. cbn in Cw.
       destruct (cancelled sw) eqn:Hsw.
       * inv H. eexists. split; [exact Lw|]. split; [reflexivity|].
-        intros _ Hq. cbn in Hq. rewrite Hsw in Hq. discriminate.
+        intros _ Hq. cbn in Hq. discriminate.
       * destruct (Body sw [(CWait n 0 i, rw, cnw)] Lw eq_refl eq_refl ltac:(auto) H) as [evs [L [F R]]].
         exists evs. auto.
     + destruct (Body s [] ltac:(now rewrite app_nil_r) eq_refl eq_refl ltac:(auto) H) as [evs [L [F R]]].
@@ -106,8 +109,8 @@ Proof.
   destruct (attempts_count c n w Hex _ _ _ _ _ _ _ 1 H) as [evs [L [_ R]]].
   exists evs. split; auto. intros Hq. specialize (R Hc Hq). unfold loop_result in R.
   destruct ar as [e|[x|e]]; auto.
-  - destruct R as [[H1 H2] H3]. rewrite H3. split; lia.
-  - destruct R as [[H1 _]|[_ [H2 H3]]]; [lia|]. auto.
+  - cbv zeta. destruct R as [[H0 _]|[[H1 H2] H3]]; [lia|]. rewrite H3. split; lia.
+  - cbv zeta. destruct R as [[H1 _]|[_ [H2 H3]]]; [lia|]. auto.
 Qed.
 
 End C02.
